@@ -278,9 +278,10 @@ def run(chk, opts):
     for c in cfgs:
         count[c["kind"]] = count.get(c["kind"], 0) + 1
     chk.notes["domain"] = count
-    chk.rule = ("every configuration of Matching.tla's domain (exported from TLC's design run): %s. exact = all R! column permutations x 4 rescaling "
-                "patterns x equivalent/different base sets x 1-3 modes for R<=%d; generic/metric/lev data drawn from VERIF_SEED; "
-                "distinct = distinct configurations" % (", ".join("%s=%d" % kv for kv in sorted(count.items())), 6 if thorough else 5))
+    chk.rule = ("every configuration of Matching.tla's domain (exported from TLC's design run): %s. exact = all R! column permutations for R<=%d (the 2R "
+                "dihedral ones for R=%d) x 4 rescaling patterns x equivalent/different base sets x 1-3 modes; generic (R<=%d, all R! matchings brute-forced "
+                "in TLC) / metric / lev data drawn from VERIF_SEED; distinct = distinct configurations"
+                % (", ".join("%s=%d" % kv for kv in sorted(count.items())), 5 if thorough else 4, 6 if thorough else 5, 6 if thorough else 5))
     byid = {}
     for e in events:
         byid[e.get("id")] = e
